@@ -54,9 +54,11 @@ def convert_type_str(s: str, problem: Problem) -> model.types.Type:
     elif s == "up:real":
         return problem.environment.type_manager.RealType()
     elif "up:real[" in s:
+        str_lb = s.split("[")[1].split(",")[0].strip()
+        str_ub = s.split(",")[1].split("]")[0].strip()
         return problem.environment.type_manager.RealType(
-            lower_bound=fractions.Fraction(s.split("[")[1].split(",")[0]),
-            upper_bound=fractions.Fraction(s.split(",")[1].split("]")[0]),
+            lower_bound=None if str_lb == "-inf" else fractions.Fraction(str_lb),
+            upper_bound=None if str_ub == "inf" else fractions.Fraction(str_ub),
         )
     else:
         assert not s.startswith("up:"), f"Unhandled builtin type: {s}"
@@ -416,7 +418,7 @@ class ProtobufReader(Converter):
                 problem.add_condition(TimePointInterval(GlobalEndTiming()), goal)
             else:
                 timing = self.convert(g.timing)
-                problem.add_condition(self.convert(timing), goal)
+                problem.add_condition(timing, goal)
 
         for sc in msg.scheduling_extension.scoped_constraints:
             c = self.convert(sc.constraint, problem)
